@@ -23,7 +23,7 @@ PROPS = {
         level_note=B_NOTE + '; ' + KANI_NOTE + '; assumption stated in evidence: map/collect/for_each adapters fold push/next in order and short-circuit on the first Err',
         technique='Kani (complete over u8) + Verus contracts and lemmas; bounded stand-in for iterator glue (labelled bounded)',
         explanation='obligations/discharged count the Kani checks and Verus verification conditions only; the stand-in (all byte strings of length <= 3 over valid/invalid characters + word-boundary lengths, every entry point) is reported under bounded_standins and is not a proof',
-        verus=[dict(name='c01', mode='T', roots=['seq.push', 'seq.new', 'seq.with_capacity', 'slice.nth', 'iter.seqiter.next', 'iter.into_iter', 'lemma_parse_display'])],
+        verus=[dict(name='c01', mode='T', roots=['seq.push', 'seq.new', 'seq.with_capacity', 'slice.nth', 'iter.seqiter.next', 'iter.into_iter', 'lemma_parse_display', 'seq.parse_delegations'])],
         kani=dict(quick=['codec_ascii_' + c for c in CODECS] + ['codec_rows_' + c for c in CODECS], profiles=['debug', 'release']),
         standin=True, standin_both_profiles=True,
     ),
